@@ -583,4 +583,4 @@ SELFTEST = [
 ]
 
 LEVEL_TEXT += ' Also (R5): on the request path no buffer is pre-sized from a length the client merely declares (size_hint / Content-Length).'
-LEVEL_TEXT += " Also (R7 = C10.R9): an unreadable Content-Type value is refused, not defaulted. Also (R1): every pause on the error path of tcp.accept() is bounded by a constant; (R8 = C03.R1): a request path whose escapes are not UTF-8 becomes the 400 of the strict decode. Also (R1): the TLS stream's accept branch carries no precondition and the only pause on the accept path is the one after a failed accept(2)."
+LEVEL_TEXT += " Also (R7 = C10.R9): an unreadable Content-Type value is refused, not defaulted. Also (R1): every pause on the error path of tcp.accept() is bounded by a constant; (R8 = C03.R1): a request path whose escapes are not UTF-8 becomes the 400 of the strict decode. Also (R1): the TLS stream's accept branch carries no precondition and the only pause on the accept path is the one after a failed accept(2). Also (R9 = C11.R1): every body frame is added to the running total compared with the limit; (R10 = C20.R1): a websocket handshake is upgraded only after each mandatory header was found and tested."
